@@ -1,6 +1,10 @@
 package interp
 
 import (
+	"reflect"
+
+	"github.com/blevesearch/vellum"
+
 	"bytes"
 	"fmt"
 	"go/types"
@@ -102,6 +106,9 @@ func init() {
 			return uint64(int64(v))
 		}
 		return args[1]
+	}
+	intrinsics[H("vAlwaysMatch")] = func(in *Interp, fr *frame, args []Value) Value {
+		return in.fromNative(reflect.ValueOf(&struct{ A vellum.Automaton }{&vellum.AlwaysMatch{}}).Elem().Field(0))
 	}
 	intrinsics[H("vRegister")] = func(in *Interp, fr *frame, args []Value) Value { return nil }
 	intrinsics[H("vRunSpawned")] = func(in *Interp, fr *frame, args []Value) Value {
